@@ -122,7 +122,7 @@ func init() {
 
 func runC13(b *Batch) {
 	registerGobTypes()
-	n := b.Pick(6000, 200000) / b.NBatches
+	n := b.Pick(6000, 1600000) / b.NBatches
 	for i := 0; i < n; i++ {
 		if b.Skip(i) {
 			continue
